@@ -595,6 +595,7 @@ private:
             }
             // Queue had empty slot with ticket k when we looked. Attempt to claim that slot.
             // Another thread claimed the slot, so retry.
+            __TBB_VERIF_POINT(vp_cq_try_push_window, this, 0);
         } while (!my_queue_representation->tail_counter.compare_exchange_strong(ticket, ticket + 1));
         __TBB_VERIF_POINT(vp_cq_ticket_taken, this, 2);
 
